@@ -99,6 +99,8 @@ structure Schema where
   types : List TypeDef
   query : Name
   mutation : Option Name
+  /-- names of the input object types declared `@oneOf` -/
+  oneOfs : List Name := []
   deriving Repr, Inhabited
 
 def builtinScalars : List Name := ["Int", "Float", "String", "Boolean", "ID"]
@@ -151,6 +153,9 @@ def getField (s : Schema) (o : Name) (f : Name) : Option FieldDef :=
   | none => none
 
 end Schema
+
+/-- `type_.is_one_of` -/
+def Schema.isOneOf (s : Schema) (n : Name) : Bool := s.oneOfs.contains n
 
 /-- `is_required_argument`: non-null type and no default. -/
 def ArgDef.required (a : ArgDef) : Bool := a.type.nonNull && a.default.isNone
